@@ -18,12 +18,18 @@ pub enum OutLen {
     Minus1,
     Plus1,
     Empty,
+    /// exactly one element (a "scalar" output), whatever the number of samples
+    One,
+    /// twice the number of samples
+    Double,
 }
 fn parse_len(s: &str) -> OutLen {
     match s {
         "-1" => OutLen::Minus1,
         "+1" => OutLen::Plus1,
         "0" => OutLen::Empty,
+        "1" => OutLen::One,
+        "x2" => OutLen::Double,
         _ => OutLen::Same,
     }
 }
@@ -33,6 +39,8 @@ fn actual_len(l: OutLen, n: usize) -> usize {
         OutLen::Minus1 => n.saturating_sub(1),
         OutLen::Plus1 => n + 1,
         OutLen::Empty => 0,
+        OutLen::One => 1,
+        OutLen::Double => 2 * n,
     }
 }
 
